@@ -169,6 +169,8 @@ impl C02 {
         // a function applied to a power / reciprocal / square of every representative unit: the
         // angle and dimensionless tests must look at the exponent, not only at which base units occur
         fams.add("fn-of-power", vec![FN6.len() as u64, POWFORMS.len() as u64, n]);
+        // unit lists of 3 and 4 members with one member of another dimensionality at every position
+        fams.add("longer unit lists with one foreign member", vec![LISTFORMS.len() as u64, n, n]);
         C02 {
             fams,
             reps,
@@ -322,6 +324,17 @@ impl C02 {
                 };
                 (format!("{}({})", k, arg), want, false)
             }
+            4 => {
+                let ra = &self.reps[d[1] as usize];
+                let rb = &self.reps[d[2] as usize];
+                if ra.text.starts_with('\'') || rb.text.starts_with('\'') || ra.text == "1" || rb.text == "1" || ra.sign != 1 || rb.sign != 1 {
+                    return (format!("skip list {} {}", ra.text, rb.text), Want::Open, false);
+                }
+                let list = LISTFORMS[d[0] as usize].replace('a', "\u{1}").replace('b', &rb.text).replace('\u{1}', &ra.text);
+                let q = format!("3 {} -> {}", ra.text, list);
+                let want = if ra.dims == rb.dims { Want::Dims(Dims::new()) } else { Want::Refuse };
+                return (q, want, true);
+            }
             _ => {
                 let shape = d[0];
                 let (o1, o2) = (TREEOPS[d[1] as usize], TREEOPS[d[2] as usize]);
@@ -365,6 +378,7 @@ impl C02 {
     }
 }
 
+const LISTFORMS: [&str; 7] = ["a;a;b", "a;b;a", "b;a;a", "a;a;a;b", "a;a;b;a", "a;b;a;a", "b;a;a;a"];
 const FN6: [&str; 6] = ["sin", "cos", "tan", "asin", "acos", "atan"];
 const POWFORMS: [&str; 9] = ["^-3", "^-2", "^-1", "^0", "^2", "^3", "x*x", "1/x", "x x x"];
 
@@ -385,7 +399,7 @@ impl Space for C02 {
         Meta {
             id: "C02",
             level: "exploration",
-            rule: "10 binary operators/functions (* / juxtaposition | + - mod hypot atan2 unit-list) x 6 coefficient pairs (a zero coefficient on either or both sides: adding nothing is still an addition) x all ordered pairs of one representative unit per distinct dimensionality of the registry (+ two quoted ad-hoc base units + a dimensionless operand); 27 unary/power/root/function applications x {1, -2} coefficient x every unit, base unit and long/prefixed/plural base-unit spelling; both depth-2 shapes x 5x5 operators over an 11-unit core; 6 trigonometric functions x 9 power/reciprocal/product forms (x^-3..x^3, x*x, 1/x, x x x) of every representative unit (an angle squared is not an angle). Oracle: own exponent-vector algebra on the registry dump. Non-trivial = judged (expected dims or expected refusal defined); distinct by query text".into(),
+            rule: "10 binary operators/functions (* / juxtaposition | + - mod hypot atan2 unit-list) x 6 coefficient pairs (a zero coefficient on either or both sides: adding nothing is still an addition) x all ordered pairs of one representative unit per distinct dimensionality of the registry (+ two quoted ad-hoc base units + a dimensionless operand); 27 unary/power/root/function applications x {1, -2} coefficient x every unit, base unit and long/prefixed/plural base-unit spelling; both depth-2 shapes x 5x5 operators over an 11-unit core; 6 trigonometric functions x 9 power/reciprocal/product forms (x^-3..x^3, x*x, 1/x, x x x) of every representative unit (an angle squared is not an angle); unit lists of 3 and 4 members with one member of another dimensionality at every position, over all ordered pairs of representatives. Oracle: own exponent-vector algebra on the registry dump. Non-trivial = judged (expected dims or expected refusal defined); distinct by query text".into(),
             assumptions: vec![
                 "the registry dump (C08 validates it) gives each unit's dimensionality".into(),
                 "exp/ln/log/hyperbolic functions of dimensioned arguments and p/q powers with p != 1 are recorded, not judged (the statement gives no rule)".into(),
